@@ -31,6 +31,7 @@ TRUSTED_BASE = [
     "hand-written Gallina models of the Rust code, tied to /repo by the correspondence suites of this run (Rust harness, generators, canonical renderings, tools/check.py string comparison)",
     "guarded hook commit in /repo (cfg rustun_verif): read-only snapshot accessors",
     "tools/gen_constants.py (regular-expression translator of the numeric constants of /repo into coq/Generated/Constants.v; a constant it cannot find becomes an impossible value, so the agreement lemma fails)",
+    "tools/rs2v.py (translator of a small imperative subset of Rust — integer / boolean logic, early returns, if let, match, while let, &mut field updates, debug-build overflow checks as explicit panics — into coq/Generated/Code.v for padding, ignore_attribute, the MessageType / MessageMethod / MessageClass conversions, RtoCalculator and RtoManager; an untranslatable function becomes a unit definition, so its agreement lemma fails)",
 ]
 
 
@@ -497,6 +498,8 @@ def check(prop, tier, seed):
 
     # 0. translator: the constants of /repo's current source -> coq/Generated/Constants.v (rewritten only when they changed)
     run([sys.executable, os.path.join(ROOT, 'tools', 'gen_constants.py'), REPO], cwd=ROOT, timeout=120)
+    #    and the functions rs2v.py translates from the current Rust text -> coq/Generated/Code.v
+    run([sys.executable, os.path.join(ROOT, 'tools', 'rs2v.py'), REPO], cwd=ROOT, timeout=120)
     consts = CONSTS.get(prop, [])
     # 1. theorems
     rc, out = coq_make(['Props/%s.vo' % prop] + cfg.get('extra_vo', []))
@@ -515,7 +518,10 @@ def check(prop, tier, seed):
             log('[coq] %d theorems of Props/%s.v re-checked, all closed under the global context' % (len(names), prop))
     for cv in consts:
         rcc, outc = coq_make(['Proofs/%s.vo' % cv])
-        obligations.append('constants of the current source agree with the models (Proofs/%s.v over Generated/Constants.v)' % cv)
+        is_code = cv.startswith('CodeAgree')
+        what = ('functions translated from the current Rust text (tools/rs2v.py -> Generated/Code.v) equal the models for all arguments (Proofs/%s.v)' % cv
+                if is_code else 'constants of the current source agree with the models (Proofs/%s.v over Generated/Constants.v)' % cv)
+        obligations.append(what)
         if rcc != 0:
             m = re.search(r'File "([^"]+)", line (\d+)', outc)
             lemma = ''
@@ -529,11 +535,13 @@ def check(prop, tier, seed):
                             break
                 except OSError:
                     pass
-            broken.append(dict(obligation='a constant of /repo differs from the model: lemma %s of Proofs/%s.v no longer checks' % (lemma or '?', cv),
+            broken.append(dict(obligation=('the Rust text of a translated function of /repo differs from the model: lemma %s of Proofs/%s.v no longer checks' if is_code
+                                           else 'a constant of /repo differs from the model: lemma %s of Proofs/%s.v no longer checks') % (lemma or '?', cv),
                                where=(m.group(0) if m else ''), log=outc[-2000:]))
-            log('[coq] constants agreement FAILED: lemma %s of Proofs/%s.v' % (lemma or '?', cv))
+            log('[coq] %s agreement FAILED: lemma %s of Proofs/%s.v' % ('translated code' if is_code else 'constants', lemma or '?', cv))
         else:
-            log('[coq] constants extracted from the source agree with the models (Proofs/%s.v)' % cv)
+            log('[coq] %s (Proofs/%s.v)' % ('the functions translated from the current Rust text equal the models' if is_code
+                                           else 'constants extracted from the source agree with the models', cv))
     hits = scan_forbidden()
     obligations.append('forbidden-construct scan of coq/**/*.v')
     if hits:
